@@ -31,6 +31,7 @@ type FlowGraph struct {
 	curFacts map[identFact]bool
 	// pseudo-variables for the fields of local struct values (d.updated): see factObj
 	fieldVars map[string]*types.Var
+	escaping  map[types.Object]bool // see escapes
 }
 
 // factObj: the variable a fact can be about: an identifier, or a field of a local struct value (d.updated
@@ -584,6 +585,11 @@ func (fg *FlowGraph) generated(n ast.Node, facts map[identFact]bool) map[identFa
 			for _, nm := range vs.Names {
 				o := fg.Info.ObjectOf(nm)
 				if o == nil || nm.Name == "_" {
+					continue
+				}
+				// a variable that a function literal assigns (a callback that sets a flag) or whose address is
+				// taken changes behind the back of the path search: its zero value is not a fact
+				if fg.escapes(o) {
 					continue
 				}
 				switch t := o.Type().Underlying().(type) {
@@ -1410,4 +1416,127 @@ func endsInNoReturn(info *types.Info, n ast.Node) bool {
 	}
 	call, ok := n.(*ast.CallExpr)
 	return ok && noReturnCall(info, call)
+}
+
+// escapes: the variable is assigned inside a function literal of the body (also as a whole struct or through
+// one of its fields) or has its address taken — it can change at any call.
+func (fg *FlowGraph) escapes(o types.Object) bool {
+	if fg.escaping == nil {
+		fg.escaping = map[types.Object]bool{}
+		root := func(e ast.Expr) types.Object {
+			for {
+				switch x := ast.Unparen(e).(type) {
+				case *ast.Ident:
+					return fg.Info.ObjectOf(x)
+				case *ast.SelectorExpr:
+					e = x.X
+				case *ast.IndexExpr:
+					e = x.X
+				case *ast.StarExpr:
+					e = x.X
+				default:
+					return nil
+				}
+			}
+		}
+		var inLit func(n ast.Node, depth int)
+		inLit = func(n ast.Node, depth int) {
+			ast.Inspect(n, func(x ast.Node) bool {
+				switch s := x.(type) {
+				case *ast.FuncLit:
+					if depth == 0 {
+						inLit(s.Body, 1)
+						return false
+					}
+				case *ast.AssignStmt:
+					if depth > 0 {
+						for _, l := range s.Lhs {
+							if r := root(l); r != nil {
+								fg.escaping[r] = true
+							}
+						}
+					}
+				case *ast.IncDecStmt:
+					if depth > 0 {
+						if r := root(s.X); r != nil {
+							fg.escaping[r] = true
+						}
+					}
+				case *ast.UnaryExpr:
+					if s.Op == token.AND {
+						if r := root(s.X); r != nil {
+							fg.escaping[r] = true
+						}
+					}
+				}
+				return true
+			})
+		}
+		inLit(fg.Body, 0)
+	}
+	return fg.escaping[o]
+}
+
+// shortCircuitFacts: what is known where n is evaluated inside the boolean expression it stands in — the
+// operands evaluated before it: in `A && …n…` A holds, in `A || …n…` A fails (go/cfg does not split
+// short-circuit conditions into blocks, so DominatingFacts does not know these).
+func shortCircuitFacts(p *Program, n ast.Node) []Fact {
+	// the outermost boolean expression that contains n
+	var top ast.Expr
+	for x := p.Parent(n); x != nil; x = p.Parent(x) {
+		e, ok := x.(ast.Expr)
+		if !ok {
+			break
+		}
+		switch y := e.(type) {
+		case *ast.BinaryExpr:
+			if y.Op == token.LAND || y.Op == token.LOR {
+				top = y
+			}
+		case *ast.ParenExpr, *ast.UnaryExpr, *ast.CallExpr, *ast.SelectorExpr:
+		default:
+			_ = y
+		}
+	}
+	if top == nil {
+		return nil
+	}
+	var out []Fact
+	var walk func(e ast.Expr)
+	walk = func(e ast.Expr) {
+		e = ast.Unparen(e)
+		switch x := e.(type) {
+		case *ast.UnaryExpr:
+			if x.Op == token.NOT && containsNode(x.X, n) {
+				walk(x.X)
+			}
+		case *ast.BinaryExpr:
+			if x.Op != token.LAND && x.Op != token.LOR {
+				return
+			}
+			if containsNode(x.Y, n) {
+				// decompose the left operand like an edge condition
+				var rec func(l ast.Expr, truth bool)
+				rec = func(l ast.Expr, truth bool) {
+					l = ast.Unparen(l)
+					if u, ok := l.(*ast.UnaryExpr); ok && u.Op == token.NOT {
+						rec(u.X, !truth)
+						return
+					}
+					if b, ok := l.(*ast.BinaryExpr); ok && (b.Op == token.LAND && truth || b.Op == token.LOR && !truth) {
+						rec(b.X, truth)
+						rec(b.Y, truth)
+						return
+					}
+					out = append(out, Fact{E: l, Neg: !truth})
+				}
+				rec(x.X, x.Op == token.LAND)
+				walk(x.Y)
+			} else if containsNode(x.X, n) {
+				walk(x.X)
+			}
+		}
+	}
+	walk(top)
+	return out
 }
